@@ -24,6 +24,9 @@ func (g *Gen) permObligations(pt *PermTable) ([]*Obligation, error) {
 	if !ok {
 		return nil, fmt.Errorf("%s is not a struct", pt.Type)
 	}
+	if pt.Wire {
+		return g.wireObligations(pt, pkg.Name(), st)
+	}
 	var internal *types.Struct
 	for i := 0; i < st.NumFields(); i++ {
 		if st.Field(i).Name() == "Internal" {
@@ -77,6 +80,65 @@ func (g *Gen) permObligations(pt *PermTable) ([]*Obligation, error) {
 	sort.Strings(missing)
 	for _, m := range missing {
 		out = append(out, mk("perm-target:"+m, "unsupported", "policy entry "+m+" names an existing method", "(assert true)\n"))
+	}
+	return out, nil
+}
+
+// wireObligations: a contract on a struct declaration whose JSON form is a wire format that other
+// binaries, earlier releases and persisted data share (token claims): every listed field is encoded
+// under exactly the stated key (its json tag name, or its Go name when untagged); closed: every exported
+// field is listed.
+func (g *Gen) wireObligations(pt *PermTable, pkgName string, st *types.Struct) ([]*Obligation, error) {
+	mk := func(name, kind, goal, body string) *Obligation {
+		return &Obligation{Name: fmt.Sprintf("%s.%s#%s", pkgName, pt.Type, name), Kind: kind, Fn: pt.Type, Pkg: pt.Pkg,
+			Props: pt.Props, Body: body, Goal: goal}
+	}
+	var out []*Obligation
+	seen := map[string]bool{}
+	for i := 0; i < st.NumFields(); i++ {
+		f := st.Field(i)
+		if !f.Exported() {
+			continue
+		}
+		seen[f.Name()] = true
+		key := f.Name()
+		tag, has := reflect.StructTag(st.Tag(i)).Lookup("json")
+		if has {
+			name := tag
+			for k := 0; k < len(tag); k++ {
+				if tag[k] == ',' {
+					name = tag[:k]
+					break
+				}
+			}
+			if name == "-" && tag == "-" {
+				key = "" // not encoded at all
+			} else if name != "" {
+				key = name
+			}
+		}
+		want, listed := pt.Requires[f.Name()]
+		if !listed {
+			if pt.Closed {
+				out = append(out, mk("wire-policy:"+f.Name(), "perm", "field "+f.Name()+" has an entry in the wire-name table (closed table)", "(assert (not false))\n"))
+			}
+			continue
+		}
+		body := "(assert (not true))\n"
+		if key != want {
+			body = "(assert (not false))\n"
+		}
+		out = append(out, mk("wire:"+f.Name(), "perm", fmt.Sprintf("field %s is encoded under the JSON key %q (declared: %q)", f.Name(), want, key), body))
+	}
+	var missing []string
+	for m := range pt.Requires {
+		if !seen[m] {
+			missing = append(missing, m)
+		}
+	}
+	sort.Strings(missing)
+	for _, m := range missing {
+		out = append(out, mk("wire-target:"+m, "unsupported", "table entry "+m+" names an existing exported field", "(assert true)\n"))
 	}
 	return out, nil
 }
